@@ -2,6 +2,9 @@
    correspondence check. ExtrOcamlBasic only. *)
 From V.lib Require Import Base.
 From V.c07 Require Import C07Model C07Aes.
+(* the AVC parameter-set / slice-header parsers of the C15 model (read-only import): an independent slice-header
+   size function for the cbcs ranges *)
+From V.c15 Require Import C15Model.
 Require Import ExtrOcamlBasic.
 Separate Extraction
   ssp scheme enc_sample saiz senc
@@ -11,4 +14,5 @@ Separate Extraction
   encrypt_samples_cenc encrypt_samples_cbcs
   saiz_empty saiz_of senc_empty senc_of senc_entries saio_offset
   aes128_encrypt aes128_decrypt
+  parse_sps_er parse_pps_er parse_slice_er sps_id sps_chroma_format_idc pps_id sh_size
   Z.of_N.  (* Z.of_N only so that BinNums.coq_Z exists for ocaml/vx.ml *)
